@@ -843,14 +843,22 @@ qb_rb_create_from_file(int32_t fd, uint32_t flags)
 	/*
 	 * 2. 3. read & write pointers
 	 */
-	n_read = read(fd, &write_pt, sizeof(uint32_t));
-	assert(n_read == sizeof(uint32_t));
+	n_required = sizeof(uint32_t);
+	n_read = read(fd, &write_pt, n_required);
+	if (n_read != n_required) {
+		qb_util_perror(LOG_ERR, "Unable to read blackbox file header");
+		return NULL;
+	}
 	total_read += n_read;
 
-	n_read = read(fd, &read_pt, sizeof(uint32_t));
-	assert(n_read == sizeof(uint32_t));
+	n_read = read(fd, &read_pt, n_required);
+	if (n_read != n_required) {
+		qb_util_perror(LOG_ERR, "Unable to read blackbox file header");
+		return NULL;
+	}
 	total_read += n_read;
-	if (write_pt > st.st_size || read_pt > st.st_size) {
+	/* both are word indices into the data */
+	if (write_pt >= word_size || read_pt >= word_size) {
 		qb_util_perror(LOG_ERR, "Invalid pointers read from blackbox header");
 		return NULL;
 	}
